@@ -112,6 +112,10 @@ type NodeTx struct {
 	VinMode  int
 	Vout     []Vout
 	VoutMode int
+	// SizeRaw, TxidRaw: the informational members a node adds ("size", "txid", "hash"); the decoder has no use for them,
+	// whatever they say ("" = 0 / the empty string)
+	SizeRaw string
+	TxidRaw string
 }
 
 func (v Vout) value() (float64, bool) {
@@ -209,7 +213,11 @@ func (t NodeTx) JSON() string {
 	for _, v := range t.Vout {
 		vout = append(vout, v.json())
 	}
-	return obj(fmt.Sprintf(`"version":%d,`, t.Version), fmt.Sprintf(`"locktime":%d,`, t.Lock), `"txid":"",`, `"hash":"",`, `"size":0,`,
+	size := t.SizeRaw
+	if size == "" {
+		size = "0"
+	}
+	return obj(fmt.Sprintf(`"version":%d,`, t.Version), fmt.Sprintf(`"locktime":%d,`, t.Lock), fmt.Sprintf(`"txid":%q,`, t.TxidRaw), fmt.Sprintf(`"hash":%q,`, t.TxidRaw), `"size":`+size+`,`,
 		t.Hex.field("hex"), list(t.VinMode, "vin", vin), list(t.VoutMode, "vout", vout))
 }
 func (t NodeTx) Coq() string {
@@ -477,6 +485,17 @@ func All(r *common.Rand, big bool, validTx []byte) []Doc {
 		t.Vin[0].SS.Mode = Absent
 		t.Vout[0].SPK.Mode = Null
 		addNode("node/hex+broken-objects", t)
+	}
+
+	// the informational members carry numbers and strings of the sender's choosing: nothing may be sized, indexed or
+	// trusted by them, with the hex shortcut and without it
+	for _, sz := range []string{"-1", "-9223372036854775808", "1", "268435456", "1099511627776", "9223372036854775807"} {
+		for _, h := range []Str{S(validHex), {Absent, ""}, S(validHex[:len(validHex)-2])} {
+			t := base()
+			t.Hex, t.SizeRaw = h, sz
+			t.TxidRaw = strings.Repeat("ab", 32)
+			addNode("node/size-and-txid-members", t)
+		}
 	}
 
 	// library tx
